@@ -131,6 +131,9 @@ def empty_displays(tree):
         def visit_Call(self, n):
             nonlocal n_done
             self.generic_visit(n)
+            if isinstance(n.func, ast.Name) and n.func.id == "dict" and not n.args and n.keywords and all(k.arg for k in n.keywords):
+                n_done += 1
+                return ast.copy_location(ast.Dict(keys=[ast.Constant(value=k.arg) for k in n.keywords], values=[k.value for k in n.keywords]), n)
             if isinstance(n.func, ast.Name) and not n.args and not n.keywords:
                 new = {"dict": lambda: ast.Dict(keys=[], values=[]), "list": lambda: ast.List(elts=[], ctx=ast.Load()),
                        "tuple": lambda: ast.Tuple(elts=[], ctx=ast.Load()), "bytes": lambda: ast.Constant(value=b""), "str": lambda: ast.Constant(value="")}.get(n.func.id)
@@ -214,6 +217,59 @@ def propagate_new_globals(module, known_globals):
             _Subst({name: st.value}).visit(module.tree)
             module.tree.body.remove(st)
             n_done += 1
+    return n_done
+
+
+def append_loops(tree):
+    """`L = []` ; `for T in IT: L.append(E)`  ->  `L = [E for T in IT]`  (also with one guarding `if`)"""
+    n_done = 0
+    for holder, blk in list(_all_blocks(tree)):
+        i = 0
+        while i < len(blk) - 1:
+            a, b = blk[i], blk[i + 1]
+            ok = isinstance(a, ast.Assign) and len(a.targets) == 1 and isinstance(a.targets[0], ast.Name) and isinstance(a.value, ast.List) and not a.value.elts \
+                and isinstance(b, ast.For) and not b.orelse and len(b.body) == 1
+            if ok:
+                L = a.targets[0].id
+                inner, cond = b.body[0], None
+                if isinstance(inner, ast.If) and not inner.orelse and len(inner.body) == 1:
+                    cond, inner = inner.test, inner.body[0]
+                app = isinstance(inner, ast.Expr) and isinstance(inner.value, ast.Call) and isinstance(inner.value.func, ast.Attribute) and inner.value.func.attr == "append" \
+                    and isinstance(inner.value.func.value, ast.Name) and inner.value.func.value.id == L and len(inner.value.args) == 1 and not inner.value.keywords
+                uses_L = any(isinstance(n, ast.Name) and n.id == L for n in ast.walk(b.iter)) or (cond is not None and any(isinstance(n, ast.Name) and n.id == L for n in ast.walk(cond))) \
+                    or (app and any(isinstance(n, ast.Name) and n.id == L for n in ast.walk(inner.value.args[0])))
+                if app and not uses_L:
+                    comp = ast.ListComp(elt=inner.value.args[0], generators=[ast.comprehension(target=b.target, iter=b.iter, ifs=[cond] if cond is not None else [], is_async=0)])
+                    a.value = ast.fix_missing_locations(ast.copy_location(comp, b))
+                    del blk[i + 1]
+                    n_done += 1
+                    continue
+            i += 1
+    return n_done
+
+
+def sort_method_to_sorted(tree):
+    """`L = [e for ...]` (or `list(E)`) directly followed by `L.sort()` -> `L = sorted(e for ...)` (resp. `sorted(E)`)"""
+    n_done = 0
+    for holder, blk in list(_all_blocks(tree)):
+        i = 0
+        while i < len(blk) - 1:
+            a, b = blk[i], blk[i + 1]
+            if isinstance(a, ast.Assign) and len(a.targets) == 1 and isinstance(a.targets[0], ast.Name) and isinstance(b, ast.Expr) and isinstance(b.value, ast.Call) \
+                    and isinstance(b.value.func, ast.Attribute) and b.value.func.attr == "sort" and isinstance(b.value.func.value, ast.Name) \
+                    and b.value.func.value.id == a.targets[0].id and not b.value.args:
+                v = a.value
+                src = None
+                if isinstance(v, ast.ListComp):
+                    src = ast.GeneratorExp(elt=v.elt, generators=v.generators)
+                elif isinstance(v, ast.Call) and isinstance(v.func, ast.Name) and v.func.id == "list" and len(v.args) == 1 and not v.keywords:
+                    src = v.args[0]
+                if src is not None:
+                    a.value = ast.fix_missing_locations(ast.copy_location(ast.Call(func=ast.Name(id="sorted", ctx=ast.Load()), args=[src], keywords=list(b.value.keywords)), v))
+                    del blk[i + 1]
+                    n_done += 1
+                    continue
+            i += 1
     return n_done
 
 
@@ -392,6 +448,20 @@ def propagate_new_locals(fn, known_names, pure_only=False):
                 continue
             E = st.value
             blk, idx = place[id(st)]
+            # copy coalescing: `v = E` ... `T = v` (the only use of v, later in the same block, T untouched in between)
+            #   ->  `T = E` at the place of the definition
+            if len(loads[v]) == 1 and not pure_only:
+                cp = parent.get(id(loads[v][0]))
+                if isinstance(cp, ast.Assign) and cp.value is loads[v][0] and len(cp.targets) == 1 and isinstance(cp.targets[0], ast.Name) \
+                        and id(cp) in place and place[id(cp)][0] is blk and place[id(cp)][1] > idx:
+                    T = cp.targets[0].id
+                    between = blk[idx + 1:place[id(cp)][1]]
+                    if not any(isinstance(n, ast.Name) and n.id == T for b_ in between for n in ast.walk(b_)) and not any(isinstance(n, ast.Name) and n.id == T for n in ast.walk(E)):
+                        stores[v][0].id = T
+                        blk.remove(cp)
+                        done += 1
+                        progressed = True
+                        break
             # every use must sit in a later statement of the same block (possibly nested inside it)
             use_stmts = []
             ok = True
